@@ -53,7 +53,7 @@ import (
 func init() {
 	core.Register(&core.Monitor{
 		ID:            "C29",
-		Rule:          "scripts over 3 keys and time bounds {0,5,2^64-1}: every script of depth <= 2 and width <= 3 (sub-scripts as multisets of the 9 leaves, PRNG order; all / any / n-of-k with n in 0..k+1: 1483 scripts) plus PRNG-sampled depth-3 scripts (quick 2500, thorough 40000), each decoded from its canonical encoding and from one PRNG non-canonical encoding (non-minimal / indefinite array, integer and byte-string headers); (E) each decoded script x all 8 witness-key subsets x validity interval grid {absent,0,4,5,6,2^64-1}^2 through NativeScript.Evaluate; (R) per era Allegra..Dijkstra a PRNG sub-sample of the scripts x the same 288 contexts as real transactions through UtxoValidateNativeScripts and the full rule list; a case is non-trivial when the script (E) / transaction (R) decodes; distinct by (site, era, script, encoding, key subset, interval)",
+		Rule:          "scripts over 3 keys and time bounds {0,5,2^64-1}: every script of depth <= 2 and width <= 3 (sub-scripts as multisets of the 9 leaves, PRNG order; all / any / n-of-k with n in 0..k+1: 1483 scripts) plus PRNG-sampled depth-3 scripts (quick 2500, thorough 40000), each decoded from its canonical encoding and from one PRNG non-canonical encoding (non-minimal / indefinite array, integer and byte-string headers); (E) each decoded script x all 8 witness-key subsets x validity interval grid {absent,0,4,5,6,2^64-1}^2 through NativeScript.Evaluate; (R) per era Allegra..Dijkstra a PRNG sub-sample of the scripts x the same 288 contexts as real transactions through UtxoValidateNativeScripts and the full rule list; the (R) transactions cycle through body map key orders (ascending, key 3 last, key 8 last, descending, shuffled; with a body key above 8 from Mary on) and every rule call is repeated on the same objects (lg.Checked); a case is non-trivial when the script (E) / transaction (R) decodes; distinct by (site, era, script, encoding, key subset, interval)",
 		MinNontrivial: 100000,
 		Assumptions: []string{
 			"NativeScript.Evaluate takes plain uint64 bounds; absence is passed the way its doc comment prescribes (validityStart 0, validityEnd math.MaxUint64)",
@@ -594,6 +594,7 @@ func buildKeyMap(mask uint8) map[common.Blake2b224]bool {
 // ---------------------------------------------------------------- run
 
 func run(c *core.Ctx) {
+	lg.EnableChecks(c).Revalidations = 1 // one repetition on the same objects: the rule-level family is large
 	scripts, d2 := universe(c)
 	c.Note("scripts_total", len(scripts))
 	c.Note("scripts_depth_le_2_exhaustive", d2)
@@ -735,7 +736,7 @@ func runDirect(c *core.Ctx, co *collector, scripts []*script) {
 					c.Count("evaluate_mismatch", 1)
 					wit := map[string]any{"script": s.String(), "script_cbor": core.HexFull(raw), "encoding": encName(canon), "context": cx.String(), "entry_point": ob.api,
 						"evaluate_args": map[string]any{"validityStart": vs, "validityEnd": ve, "witness_key_hashes": hashesOf(cx.keys)},
-						"library": lib, "reference": want}
+						"library":       lib, "reference": want}
 					w := [3]int{s.size(), len(raw), ci}
 					if ex := explain(s, cx, lib, false); ex != nil {
 						for _, name := range ex {
@@ -787,8 +788,41 @@ func scriptState(w *lg.World, scriptBytes []byte) (*lg.State, lg.Hash28, error) 
 
 // buildTx returns the spec of a transaction spending the UTxO locked by the
 // script (given as bytes) under context cx.
-func buildTx(w *lg.World, scriptBytes []byte, cx tctx, tagSets bool) *lg.TxSpec {
+// bodyOrders are the presentations of the body map the rule-level family
+// cycles through: the validity bounds (keys 3 and 8) end up after a key > 8
+// (Mary: mint 9, Alonzo+: network id 15), before everything, or anywhere.
+var bodyOrderNames = []string{"ascending", "key-3-last", "key-8-last", "descending", "shuffled"}
+
+func bodyOrder(k int, seed uint64) lg.KeyOrder {
+	switch k {
+	case 1:
+		return lg.KeyLast(3)
+	case 2:
+		return lg.KeyLast(8)
+	case 3:
+		return lg.Descending()
+	case 4:
+		return lg.Shuffled(seed)
+	}
+	return lg.Ascending()
+}
+
+func buildTx(w *lg.World, scriptBytes []byte, cx tctx, tagSets bool, order int, seed uint64) *lg.TxSpec {
 	spec := w.Spec.Clone()
+	spec.BodyOrder = bodyOrder(order, seed)
+	if order != 0 {
+		spec.WitnessOrder = lg.Descending()
+		// a body key above 8, so that "the bounds come after a key > 8" exists
+		switch {
+		case w.Era >= lg.Alonzo:
+			spec.NetworkID = lg.U8(lg.Mainnet)
+		case w.Era == lg.Mary:
+			pol := lg.ScriptHash(0, scriptBytes) // the witness script is the minting policy
+			spec.Mint = []lg.Asset{lg.Tok(pol, "t", 1)}
+			spec.Outputs = append([]lg.Output(nil), spec.Outputs...)
+			spec.Outputs[0].Assets = []lg.Asset{lg.Tok(pol, "t", 1)}
+		}
+	}
 	spec.Inputs = append(spec.Inputs, scriptIn)
 	spec.Outputs[0].Coin += scriptCoin
 	spec.ValidityStart = cx.start.ptr()
@@ -830,7 +864,7 @@ func runRules(c *core.Ctx, co *collector, scripts []*script, d2 int) {
 		}{{&script{k: kAll}, true}, {&script{k: kAny}, false}} {
 			b := pf.s.node(nil).Encode()
 			st, _, err := scriptState(w, b)
-			spec := buildTx(w, b, tctx{}, false)
+			spec := buildTx(w, b, tctx{}, false, 0, 0)
 			if err != nil {
 				forceInconclusive(c, fmt.Sprintf("pre-flight %s: script-locked UTxO not accepted by the output decoder: %v", e, err))
 				return
@@ -877,6 +911,8 @@ func runRules(c *core.Ctx, co *collector, scripts []*script, d2 int) {
 		sb := s.node(pol).Encode()
 		canon := bytes.Equal(sb, s.node(nil).Encode())
 		tagSets := rc.era >= lg.Conway && r.Bool()
+		order := i % len(bodyOrderNames)
+		c.Count("rule_body_order:"+bodyOrderNames[order], 1)
 		pp := w.PP()
 		c.Journal("C29 rule %d era=%s %s script=%x tag_sets=%v x %d contexts", i, en, s, sb, tagSets, nContexts)
 		st, sh, err := scriptState(w, sb)
@@ -885,7 +921,7 @@ func runRules(c *core.Ctx, co *collector, scripts []*script, d2 int) {
 			return
 		}
 		for ci, cx := range contexts {
-			built := buildTx(w, sb, cx, tagSets).Build()
+			built := buildTx(w, sb, cx, tagSets, order, uint64(i)).Build()
 			if !bytes.Contains(built.Cbor, sb) {
 				c.Inconclusive("generator: script bytes not found verbatim in the built transaction")
 				return
@@ -912,7 +948,7 @@ func runRules(c *core.Ctx, co *collector, scripts []*script, d2 int) {
 			if cx.start.present {
 				slot = cx.start.v
 			}
-			rerr := rules[rc.era](tx, slot, st, pp)
+			rerr := lg.Checked(rc.era, tx, st, func() error { return rules[rc.era](tx, slot, st, pp) })
 			lib := rerr == nil
 			want := ref(s, cx)
 			if lib {
@@ -935,7 +971,7 @@ func runRules(c *core.Ctx, co *collector, scripts []*script, d2 int) {
 			} else {
 				c.Count("full_list_reject_"+en, 1)
 			}
-			wit := map[string]any{"era": en, "script": s.String(), "script_cbor": core.HexFull(sb), "encoding": encName(canon), "context": cx.String(), "slot": slot,
+			wit := map[string]any{"era": en, "script": s.String(), "script_cbor": core.HexFull(sb), "encoding": encName(canon), "context": cx.String(), "slot": slot, "body_key_order": bodyOrderNames[order],
 				"tx_cbor": core.HexFull(built.Cbor), "rule": lg.RuleName(rules[rc.era]), "rule_result": fmt.Sprint(rerr), "full_rule_list_result": fmt.Sprint(full), "reference": want}
 			wt := [3]int{s.size(), len(sb), ci}
 			if full == nil && !lib && !want {
